@@ -46,7 +46,11 @@ func (c03) Cases(tier string, seed uint64) []core.Case {
 		sm := core.SyncModes[i%len(core.SyncModes)]
 		cfg := core.Config{IndexType: core.IndexTypes[r.Intn(3)], ShardNum: core.ShardNums[r.Intn(5)], FileIO: byte((i / len(core.SyncModes)) % 2),
 			DataFileSize: []int64{4 << 10, 40 << 10, 64 << 10}[r.Intn(3)], Sync: sm.S, BytesPerSync: sm.B}
-		nops := r.Range(30, 70)
+		if cfg.FileIO == 1 && cfg.DataFileSize < 40<<10 && tier != "thorough" {
+			// quick: an mmap image with dozens of 4 KiB files costs ~50 mappings per reopen
+			cfg.DataFileSize = 40 << 10
+		}
+		nops := r.Range(30, 55)
 		if tier == "thorough" {
 			nops = r.Range(30, 90)
 		}
